@@ -14,7 +14,7 @@ ID = 'C13'
 LEVEL = 'exploration'
 RULE = ('worlds {1,2,3,4,6,8}, every divisor k, both methods, pre-divided eigenvalues on/off, symmetric on/off, colocate on/off, bucketed or not, hook/no-hook, '
         '1-8 steps with constant or callable (F,I); histories are construction + steps, 30% with a checkpoint restored into a fresh preconditioner between two steps; non-trivial: world>1; distinct = (W,k,method,flags,(F,I))')
-ASSUMPTIONS = ['tensors held by a layer are those reachable from vars(layer) (futures resolved, module and communicator excluded)',
+ASSUMPTIONS = ['tensors held by a layer are those reachable from vars(layer), directly or inside tuples, lists and dicts (futures resolved, module and communicator excluded)',
                'partition_grad_receivers / is_grad_worker of the rank views define the row / column groups', 'simdist stands in for the backend']
 REQUIRED = ['held_checks', 'step_accounting_checks', 'world_of_one_runs']
 
